@@ -56,6 +56,21 @@ func (cs c15Case) grp(k int) int {
 	return 1
 }
 
+// c15ExpName is the type name a value goes by, computed without the marshaler: the fully qualified type name by default, what the
+// configured generator says otherwise (a value's own Name() method counts only with NamedStruct).
+func c15ExpName(cs c15Case, v any) string {
+	switch cs.NameGen {
+	case "struct":
+		return cqrs.StructName(v)
+	case "named":
+		if n, ok := v.(interface{ Name() string }); ok {
+			return n.Name()
+		}
+		return cqrs.StructName(v)
+	}
+	return cqrs.FullyQualifiedStructName(v)
+}
+
 func c15Marshaler(cs c15Case) cqrs.CommandEventMarshaler {
 	var gen func(v interface{}) string
 	switch cs.NameGen {
@@ -428,7 +443,7 @@ func c15Run(r *tr.Run, cs c15Case) {
 				marked = pm.Metadata.Get("hooked") == "1"
 				ctxok = pm.Context().Value(c15CtxKey{}) == which
 			}
-			r.Emit("bus", "calls", len(calls), "topic", topic, "name", name, "exptopic", topicOf(m.Name(v))+"/"+c15Shard(v), "expname", m.Name(v), "roundtrip", round,
+			r.Emit("bus", "calls", len(calls), "topic", topic, "name", name, "exptopic", topicOf(c15ExpName(cs, v))+"/"+c15Shard(v), "expname", c15ExpName(cs, v), "roundtrip", round,
 				"hook", hookMode, "marked", marked, "ctxok", ctxok, "err", e != nil)
 		}
 	}
